@@ -227,7 +227,8 @@ def flow_cases(draw, dim):
     sp["dim"] = dim
     sp["pscale"] = draw(st.sampled_from([0.1, 0.3] if dim == 1 else [0.1, 0.2]))
     if sp["factory"] == "planar_flow":
-        sp["pscale"] = draw(st.sampled_from([0.3, 1.0, 2.0, 2.0]))  # init is 0.01*N(0,1): the constraint only matters far from it
+        # init is 0.01*N(0,1): the constraint only matters far from it (conditional: see vf/gen.py)
+        sp["pscale"] = draw(st.sampled_from([0.3, 1.0, 2.0, 2.0] if sp.get("cond_dim") is None else [0.1, 0.3]))
         sp["negative_slope"] = draw(st.sampled_from([0.1, 0.5, None]))
         if sp["negative_slope"] is None:
             sp["negative_slope"] = 0.5  # tanh planar has only one direction: density and sampler cannot both be evaluated
